@@ -212,6 +212,7 @@ func checkC18(c *Ctx) {
 		return
 	}
 	c18Helpers = helpers
+	ruleLogBound(c, "R18.10", fn) // the upkeep runs before the log consumer: the number of its log writes must not be file-driven
 	paths, err := Enumerate(fn, SymConfig{Prog: c.P, MaxDepth: 4, Collapse: true, OnlyInline: helpers})
 	if !c.Require(err == nil, "R18.0", "updateHIDIConfiguration/paths", fmt.Sprint(err)) {
 		return
